@@ -69,3 +69,43 @@ theorem listingF_length (lvl : Nat) (f : List Node) : (listingF lvl f).length = 
 end
 
 end Gedcom.Dec
+
+namespace Gedcom.Dec
+open Gedcom
+
+mutual
+theorem listingT_levels_ge (lvl : Nat) (t : Node) : ∀ e ∈ listingT lvl t, lvl ≤ e.level := by
+  match t with
+  | .mk tg v p ks =>
+    intro e he
+    simp only [listingT, List.mem_cons] at he
+    rcases he with he | he
+    · subst he; exact Nat.le_refl _
+    · have := listingF_levels_ge (lvl + 1) ks e he; omega
+theorem listingF_levels_ge (lvl : Nat) (f : List Node) : ∀ e ∈ listingF lvl f, lvl ≤ e.level := by
+  match f with
+  | [] => intro e he; simp [listingF] at he
+  | t :: ts =>
+    intro e he
+    simp only [listingF, List.mem_append] at he
+    rcases he with he | he
+    · exact listingT_levels_ge lvl t e he
+    · exact listingF_levels_ge lvl ts e he
+end
+
+/-- the entries of level `lvl` in the listing of a forest at level `lvl` are exactly its roots,
+    in order -/
+theorem listingF_roots (lvl : Nat) (f : List Node) :
+    (listingF lvl f).filter (fun e => e.level == lvl) = f.map (fun k => ⟨lvl, ⟨k.tag, k.value, k.ptr⟩⟩) := by
+  induction f with
+  | nil => simp [listingF]
+  | cons t ts ih =>
+    obtain ⟨tg, v, p, ks⟩ := t
+    have hdeep : (listingF (lvl + 1) ks).filter (fun e => e.level == lvl) = [] := by
+      rw [List.filter_eq_nil_iff]
+      intro e he
+      have := listingF_levels_ge (lvl + 1) ks e he
+      simp; omega
+    simp [listingF, listingT, List.filter_append, hdeep, ih, Node.tag, Node.value, Node.ptr]
+
+end Gedcom.Dec
